@@ -60,6 +60,9 @@ static inline void cstl_std_mutex_lock(cstl_std_mutex *m)
 {
     CSTL_ASSERT(!m->held, "std.mutex.lock: not already held by this call (self-deadlock) [C06 C07 C08]");
     m->held = true;
+#ifdef CSTL_CBMC
+    CSTL_ASSUME(m->acq < UINT64_MAX); /* ghost counter: fewer than 2^64 acquisitions (listed arithmetic assumption) */
+#endif
     m->acq++;
 }
 static inline void cstl_std_mutex_unlock(cstl_std_mutex *m)
